@@ -268,6 +268,19 @@ def run_outline(outline, oracle, crash_at=(), medium='pickle', max_units=200, la
             units.append([list(c) for c in trace[seen:]])
             waits.append(proc.state == ProcessState.WAITING)      # the unit ended in a Wait for what it registered
             seen = len(trace)
+      # C07: the terminated process is a save point too: save, load, save again
+      unsavable = proc.state == ProcessState.FINISHED and isinstance(proc.result(), wc.ToContext) and len(proc.result()) > 0
+      if medium != 'none' and not unsavable:      # (a result that holds a live future cannot be saved: not a save point)
+        from . import core_real
+        m2 = medium if medium not in ('mem', 'pfile') else 'copy'
+        try:
+            b1 = through(plumpy.Bundle(proc), m2)
+            twin = b1.unbundle(plumpy.LoadSaveContext(loop=vloop.VLoop()))
+            d = core_real.bundle_diff(b1, through(plumpy.Bundle(twin), m2))
+            if d or twin.state != proc.state:
+                roundtrip_bad.append(['terminated', [list(map(str, x)) for x in d[:3]] or [str(twin.state), str(proc.state)]])
+        except Exception as e:  # noqa
+            roundtrip_bad.append(['terminated', 'loading the bundle of the terminated process raised %r' % (e,)])
     finally:
         store.close()
     res = None
